@@ -370,10 +370,10 @@ impl<'a> FnCtx<'a> {
                         }
                         (Some(Ty::I32), _) => {
                             if r.chance(1, 10) {
-                                if r.chance(1, 6) {
-                                    // growth around the chain's 512-page cap and the declared maximum
+                                if r.chance(1, 2) {
+                                    // small growths that succeed, and growth around the chain's 512-page cap and the declared maximum
                                     out.push(Instr::Op(OP_DROP));
-                                    out.push(Instr::Const32(*r.pick(&[0, 1, 2, 509, 510, 511, 512, 513, 600, 65535, 65536])));
+                                    out.push(Instr::Const32(*r.pick(&[0, 1, 1, 1, 2, 2, 3, 509, 510, 511, 512, 513, 600, 65535, 65536])));
                                 }
                                 out.push(Instr::MemGrow);
                             } else {
@@ -667,7 +667,7 @@ pub fn gen_module(r: &mut Rng, cfg: &Cfg) -> Module {
     }
     if !cfg.memless && r.chance(4, 5) {
         // sometimes a memory with zero initial pages (and then no data segments): it exists, has size 0 and can grow
-        let min = if r.chance(1, 12) { 0 } else { 1 + r.below(2) as u32 };
+        let min = if r.chance(1, 8) { 0 } else { 1 + r.below(2) as u32 };
         let max = match r.below(12) {
             0..=3 => None,
             // a declared maximum beyond the chain's cap of 512 pages
